@@ -32,6 +32,10 @@ struct Log {
     max_us: u64,
 }
 
+/// set once readers were left hanging: the violation is established, the threads that hang keep their pack
+/// busy, and every further phase would only wait for its own bound again
+static HUNG: std::sync::atomic::AtomicBool = std::sync::atomic::AtomicBool::new(false);
+
 fn trand() -> u64 {
     TRNG.with(|c| {
         let mut x = c.get();
@@ -116,6 +120,10 @@ pub fn run(ctx: &mut Ctx) {
     for case in 0..n as u64 {
         let mut crng = rng.fork(case);
         if !ctx.wants(case) {
+            continue;
+        }
+        if HUNG.load(Ordering::SeqCst) {
+            ctx.count("phases_skipped_after_a_hang");
             continue;
         }
         let nthreads = [2usize, 4, 8, 16, 32, 3][(case % 6) as usize];
@@ -251,6 +259,7 @@ pub fn run(ctx: &mut Ctx) {
         }
         jbk::verif_hooks::set_hook(None);
         if done < nthreads {
+            HUNG.store(true, Ordering::SeqCst);
             ctx.fail(case, "timeout", &format!("{} of {} reader threads did not finish within the bound (deadlock / lost wake-up?)", nthreads - done, nthreads));
             // cannot join hung threads: leave them and stop the whole run
             ctx.case_done(case, true);
@@ -363,6 +372,10 @@ pub fn run(ctx: &mut Ctx) {
 /// must then be woken by the publishes that follow and return the stored bytes.  One cluster after
 /// the other (each is decoded for the first time), so the schedule is reproduced for every cluster.
 fn rendezvous(ctx: &mut Ctx, case: u64, rng: &mut Rng, nthreads: usize) {
+    if HUNG.load(Ordering::SeqCst) {
+        ctx.count("phases_skipped_after_a_hang");
+        return;
+    }
     use std::sync::atomic::AtomicBool;
     let comp = [Comp::Zstd(1), Comp::Lz4(1), Comp::Lzma(0)][(case % 3) as usize];
     let nclusters = 6usize;
@@ -487,6 +500,7 @@ fn rendezvous(ctx: &mut Ctx, case: u64, rng: &mut Rng, nthreads: usize) {
             }
         }
         if done < nthreads {
+            HUNG.store(true, Ordering::SeqCst);
             ctx.fail(case, "timeout", &format!("forced schedule: {} reader threads wait for the end of cluster {} while it is decoded; {} of them were never woken although the cluster was decoded to its end (lost wake-up)", nthreads, ci, nthreads - done));
             break 'clusters;
         }
@@ -510,6 +524,10 @@ fn rendezvous(ctx: &mut Ctx, case: u64, rng: &mut Rng, nthreads: usize) {
 /// switches of different clusters overlap as often as the machine allows.  Oracle only (there is no
 /// event history to replay): every read returns the stored bytes.
 fn hammer(ctx: &mut Ctx, case: u64, rng: &mut Rng, nthreads: usize, comp: Comp) {
+    if HUNG.load(Ordering::SeqCst) {
+        ctx.count("phases_skipped_after_a_hang");
+        return;
+    }
     let nclusters = 44 + rng.below(6) as usize; // more than the 40 cache slots
     // hint No for an uncompressed pack is irrelevant (everything is raw); for a compressed pack every
     // other cluster's worth of contents is raw
@@ -598,7 +616,8 @@ fn hammer(ctx: &mut Ctx, case: u64, rng: &mut Rng, nthreads: usize, comp: Comp) 
         }
     }
     if done < nthreads {
-        ctx.fail(case, "timeout", &format!("no perturbation: {} of {} reader threads did not finish within the bound", nthreads - done, nthreads));
+        HUNG.store(true, Ordering::SeqCst);
+            ctx.fail(case, "timeout", &format!("no perturbation: {} of {} reader threads did not finish within the bound", nthreads - done, nthreads));
     }
     ctx.add("hammer_reads_ok", total);
     ctx.count(&format!("hammer_threads:{}", nthreads));
@@ -615,6 +634,10 @@ fn hammer(ctx: &mut Ctx, case: u64, rng: &mut Rng, nthreads: usize, comp: Comp) 
 /// the first access to a cluster (its tail is loaded from the shared file) falls between two reads of
 /// other threads' streams and between two reads of a decoder's input.  No hook, no sleep.  Oracle only.
 fn crowd(ctx: &mut Ctx, case: u64, rng: &mut Rng, nthreads: usize, comp: Comp) {
+    if HUNG.load(Ordering::SeqCst) {
+        ctx.count("phases_skipped_after_a_hang");
+        return;
+    }
     use crate::container::{self, Item, Mode, Spec};
     let npacks: u16 = if ctx.quick() { 28 } else { 47 };
     let mut items = vec![];
@@ -743,6 +766,7 @@ fn crowd(ctx: &mut Ctx, case: u64, rng: &mut Rng, nthreads: usize, comp: Comp) {
             }
         }
         if done < nthreads {
+            HUNG.store(true, Ordering::SeqCst);
             ctx.fail(case, "timeout", &format!("many packs in one file: {} of {} reader threads did not finish within the bound", nthreads - done, nthreads));
             break;
         }
